@@ -140,6 +140,11 @@ func (c *layer2Controller) SetBalancer(l log.Logger, name string, lbIPs []net.IP
 	}
 	if updateStatus {
 		c.onStatusChange(types.NamespacedName{Name: svc.Name, Namespace: svc.Namespace})
+	} else if c.announcer.AnnounceName(name) {
+		// None of the addresses can be announced on the local interfaces any more (the
+		// advertisement's interfaces changed): drop what was announced before.
+		c.announcer.DeleteBalancer(name)
+		c.onStatusChange(types.NamespacedName{Name: svc.Name, Namespace: svc.Namespace})
 	}
 	return nil
 }
